@@ -28,7 +28,7 @@ pub struct C10Case {
     pub activity: Option<(f32, f32)>,
 }
 
-pub const FAMILIES: &[(&str, u64)] = &[("tiny", 3), ("tiny-hints", 3), ("tiny-soft", 1), ("medium", 2), ("medium-hints", 2), ("conf", 2), ("conf-hints", 2), ("lazy-hints", 1), ("deep-hints", 1), ("huge-hints", 1), ("hub-hints", 1), ("many-soft-hints", 1)];
+pub const FAMILIES: &[(&str, u64)] = &[("tiny", 3), ("tiny-hints", 3), ("tiny-soft", 1), ("medium", 2), ("medium-hints", 2), ("conf", 2), ("conf-hints", 2), ("lazy-hints", 1), ("deep-hints", 1), ("huge-hints", 1), ("hub-hints", 1), ("many-soft-hints", 1), ("union-conf-hints", 2)];
 
 /// Duplicate provider calls in a log (within one solver): a call for something the provider has
 /// already answered, or for something that was already asked in this log - unless the PROVIDER
